@@ -154,10 +154,11 @@ func (a argInfo) defSexp() sexp.Node {
 
 // (a DEFAULT SRC) / (a DEFAULT SRC nn)
 func (a argInfo) aform(src argSrc) sexp.Node {
+	flag := "n"
 	if a.nonnull {
-		return sexp.T("a", a.defSexp(), src.sexp(), sexp.Sym("nn"))
+		flag = "nn"
 	}
-	return sexp.T("a", a.defSexp(), src.sexp())
+	return sexp.T("a", a.defSexp(), src.sexp(), sexp.Sym(flag), sexp.Str(a.name))
 }
 
 type fieldInfo struct {
@@ -271,6 +272,8 @@ type sel struct {
 	// apifu route: a cursor argument written verbatim (name, string literal) and the number of edges
 	// that lie beyond it
 	rawArgName, rawArgVal string
+	// hostile stream: the first argument of a generic field written a second time with this value
+	dupArg *glit
 	between               int
 }
 
@@ -445,6 +448,9 @@ func selsText(b *strings.Builder, ss []*sel) {
 			if s.rawArgName != "" {
 				parts = append(parts, s.rawArgName+": "+fmt.Sprintf("%q", s.rawArgVal))
 			}
+			if s.dupArg != nil && fi != nil && len(fi.args) > 0 {
+				parts = append(parts, fi.args[0].name+": "+s.dupArg.text())
+			}
 			if len(parts) > 0 {
 				b.WriteString("(" + strings.Join(parts, ", ") + ")")
 			}
@@ -561,6 +567,10 @@ func selNode(s *sel) sexp.Node {
 		if s.rawArgName != "" {
 			kids = append(kids, o(o(), o())) // Argument: Name, StringValue
 		}
+		if s.dupArg != nil && fi != nil && fi.gen != nil && len(fi.args) > 0 {
+			genArgs = append(genArgs, sexp.L(sexp.Str(fi.args[0].name), s.dupArg.sexp()))
+			kids = append(kids, o(o(), s.dupArg.shape()))
+		}
 		kids = append(kids, dirsNodes(s.dirs)...)
 		if s.hasSet {
 			kids = append(kids, selSetNode(s.kids))
@@ -571,11 +581,12 @@ func selNode(s *sel) sexp.Node {
 		if fi == nil {
 			return sexp.T("u", kids...)
 		}
+		label := sexp.Str(s.scope + "." + s.name)
 		if fi.gen != nil {
 			cfd := sexp.T("gen", sexp.L(genDefs...), sexp.L(genArgs...), fi.gen.r, fi.gen.m, fi.gen.setc)
-			return sexp.T("f", append([]sexp.Node{cfd}, kids...)...)
+			return sexp.T("f", append([]sexp.Node{sexp.T("named", label, cfd)}, kids...)...)
 		}
-		return sexp.T("f", append([]sexp.Node{fi.cfd(argForms)}, kids...)...)
+		return sexp.T("f", append([]sexp.Node{sexp.T("named", label, fi.cfd(argForms))}, kids...)...)
 	case kInline:
 		var kids []sexp.Node
 		if s.cond != "" {
@@ -819,6 +830,28 @@ func costFn(scope, name string) func(graphql.FieldCostContext) graphql.FieldCost
 
 var directSchema *graphql.Schema
 
+// the calls the cost functions of the direct schema receive, in order: (label, user context value,
+// argument map) — the cost functions are harness code, so what they are handed is observable
+var callLog []sexp.Node
+
+func recorded(label string, fn func(graphql.FieldCostContext) graphql.FieldCost) func(graphql.FieldCostContext) graphql.FieldCost {
+	if fn == nil {
+		return nil
+	}
+	return func(ctx graphql.FieldCostContext) graphql.FieldCost {
+		user := sexp.None()
+		if v, ok := ctx.Context.Value(userKey).(int); ok {
+			user = sexp.Some(sexp.Int(v))
+		}
+		args := map[string]interface{}{}
+		for k, v := range ctx.Arguments {
+			args[k] = v
+		}
+		callLog = append(callLog, sexp.L(sexp.Str(label), user, goValSexp(args, "map")))
+		return fn(ctx)
+	}
+}
+
 func buildDirectSchema() *graphql.Schema {
 	obj := &graphql.ObjectType{Name: "Obj"}
 	iface := &graphql.InterfaceType{Name: "I"}
@@ -836,9 +869,9 @@ func buildDirectSchema() *graphql.Schema {
 		for _, f := range fs {
 			def := &graphql.FieldDefinition{Type: typeOf(f.ret)}
 			if f.gen != nil {
-				def.Cost = genCostFn(f.name)
+				def.Cost = recorded(scope+"."+f.name, genCostFn(f.name))
 			} else {
-				def.Cost = costFn(scope, f.name)
+				def.Cost = recorded(scope+"."+f.name, costFn(scope, f.name))
 			}
 			if len(f.args) > 0 {
 				def.Arguments = map[string]*graphql.InputValueDefinition{}
@@ -1289,6 +1322,7 @@ func directCase(d *doc, opName string, vars map[string]interface{}, dc graphql.F
 	q := d.text()
 	assertShape(q, d.opsSexp(), d.fragsSexp())
 	var observed sexp.Node
+	var calls []sexp.Node
 	max := -1
 	std := 0
 	func() {
@@ -1298,7 +1332,9 @@ func directCase(d *doc, opName string, vars map[string]interface{}, dc graphql.F
 			}
 		}()
 		std = stdErrors(q)
+		callLog = nil
 		e0, a0 := validate(q, opName, vars, -1, dc, std)
+		calls = callLog
 		max = limit(a0)
 		e1, a1 := validate(q, opName, vars, max, dc, std)
 		observed = sexp.L(sexp.Int(e0), actualSexp(a0), sexp.Int(e1), actualSexp(a1))
@@ -1308,7 +1344,7 @@ func directCase(d *doc, opName string, vars map[string]interface{}, dc graphql.F
 		sexp.T("table", tableSexp()), sexp.T("opname", sexp.Str(opName)), sexp.T("vars", varsSexp(vars)),
 		sexp.T("ops", d.opsSexp()), sexp.T("frags", d.fragsSexp()), sexp.T("max", zint(max)),
 		sexp.T("conns", sexp.L()), sexp.T("observed", observed), sexp.T("std", sexp.Int(std)),
-		sexp.T("env", envSexp()), sexp.T("xvars", xvarsSexp(d, vars)), sexp.T("query", sexp.Str(q)))
+		sexp.T("env", envSexp()), sexp.T("xvars", xvarsSexp(d, vars)), sexp.T("calls", sexp.L(calls...)), sexp.T("query", sexp.Str(q)))
 }
 
 var defaultCosts = []graphql.FieldCost{{Resolver: 1}, {Resolver: 1}, {}, {Resolver: 2, Multiplier: 2}, {Resolver: 0, Multiplier: 1 << 31}, {Resolver: maxInt}}
@@ -1486,7 +1522,21 @@ func allSels(d *doc) []*[]*sel {
 func mutate(r *rng.R, d *doc) {
 	lists := allSels(d)
 	ss := lists[r.Intn(len(lists))]
-	switch r.Intn(7) {
+	which := r.Intn(11)
+	if which >= 7 {
+		// the generic fields exist on Obj only
+		scope := ""
+		for _, x := range *ss {
+			if x.scope != "" {
+				scope = x.scope
+				break
+			}
+		}
+		if scope != "Obj" {
+			which = 0
+		}
+	}
+	switch which {
 	case 0: // spread of an undefined fragment
 		*ss = append(*ss, spread("Undefined"))
 	case 1: // unknown field
@@ -1516,6 +1566,22 @@ func mutate(r *rng.R, d *doc) {
 			n := d.frags[len(d.frags)-1].name
 			*ss = append(*ss, spread(n), spread(n))
 		}
+	case 7: // an argument given twice (5.4.2)
+		a, b := glist(gi(1)), glist(gi(2), gi(3))
+		*ss = append(*ss, &sel{kind: kField, scope: "Obj", name: "lst", alias: "zd", args: []argSrc{{kind: srcGen, g: &a}}, dupArg: &b,
+			hasSet: true, kids: []*sel{f("Obj", "leaf")}})
+	case 8: // an input-object field given twice (5.6.3)
+		l := gobj("r", gi(1), "m", gi(2), "r", gi(3))
+		*ss = append(*ss, &sel{kind: kField, scope: "Obj", name: "inp", alias: "zo", args: []argSrc{{kind: srcGen, g: &l}},
+			hasSet: true, kids: []*sel{f("Obj", "leaf")}})
+	case 10: // a variable of the wrong type (5.8.5): an Int where an input object is expected
+		l := gvar("v0")
+		*ss = append(*ss, &sel{kind: kField, scope: "Obj", name: "inp", alias: "zw", args: []argSrc{{kind: srcGen, g: &l}},
+			hasSet: true, kids: []*sel{f("Obj", "leaf")}})
+	case 9: // a variable of the wrong type (5.8.5): an input object where a list is expected
+		l := gvar("o0")
+		*ss = append(*ss, &sel{kind: kField, scope: "Obj", name: "lst", alias: "zv", args: []argSrc{{kind: srcGen, g: &l}},
+			hasSet: true, kids: []*sel{f("Obj", "leaf")}})
 	}
 }
 
@@ -1530,7 +1596,10 @@ type connInfo struct {
 var connFields = map[string]map[string]connInfo{
 	"Query": {"items": {apifu.ConnectionDirectionBidirectional, 7}},
 	"Item": {"kids": {apifu.ConnectionDirectionForwardOnly, 4}, "rkids": {apifu.ConnectionDirectionBackwardOnly, 3},
-		"both": {apifu.ConnectionDirectionBidirectional, 5}},
+		"both": {apifu.ConnectionDirectionBidirectional, 5},
+		// a TimeBasedConnection (Connection with a ResolveEdges callback built from EdgeGetter): its getter
+		// ignores the limit and hands over every edge of the time range
+		"timed": {apifu.ConnectionDirectionBidirectional, 6}},
 }
 
 type apiUnderTest struct {
@@ -1625,6 +1694,13 @@ func (a *apiUnderTest) post(payload map[string]interface{}) (data interface{}, n
 	return resp.Data, len(resp.Errors), w.Body.String()
 }
 
+var timedBase = time.Date(2020, 1, 1, 0, 0, 0, 0, time.UTC)
+
+// the cursor of item j of the time-based connection
+func timedCursor(j int) apifu.TimeBasedCursor {
+	return apifu.NewTimeBasedCursor(timedBase.Add(time.Duration(j)*time.Second), fmt.Sprint(j))
+}
+
 func buildAPI(dc graphql.FieldCost) *apiUnderTest {
 	a := &apiUnderTest{}
 	cfg := &apifu.Config{DefaultFieldCost: dc, PersistedQueryStorage: &pqStore{m: map[string]string{}}}
@@ -1660,6 +1736,27 @@ func buildAPI(dc graphql.FieldCost) *apiUnderTest {
 		})
 	}
 	for name, ci := range connFields["Item"] {
+		if name == "timed" {
+			avail := ci.avail
+			item.Fields[name] = apifu.TimeBasedConnection(&apifu.TimeBasedConnectionConfig{
+				NamePrefix: "ItemTimed",
+				EdgeCursor: func(e interface{}) apifu.TimeBasedCursor { return timedCursor(e.(int)) },
+				EdgeFields: map[string]*graphql.FieldDefinition{
+					"node": {Type: item, Resolve: func(ctx graphql.FieldContext) (interface{}, error) { return ctx.Object, nil }},
+				},
+				EdgeGetter: func(ctx graphql.FieldContext, minTime, maxTime time.Time, limit int) (interface{}, error) {
+					var xs []int
+					for i := 1; i <= avail; i++ {
+						if t := timedBase.Add(time.Duration(i) * time.Second); !t.Before(minTime) && !t.After(maxTime) {
+							xs = append(xs, i)
+						}
+					}
+					return xs, nil // every edge of the range, whatever the limit
+				},
+				ResolveTotalCount: func(ctx graphql.FieldContext) (interface{}, error) { return avail, nil },
+			})
+			continue
+		}
 		item.Fields[name] = mkConn("Item"+strings.Title(name), ci)
 	}
 	cfg.AddQueryField("items", mkConn("QueryItems", connFields["Query"]["items"]))
@@ -1781,7 +1878,11 @@ func (g *apiGen) conn(scope, name string, depth int) *sel {
 	if g.r.Chance(1, 4) {
 		// a cursor: the items are 1..avail, the cursor of item j is the serialized int j
 		j := g.r.Range(0, ci.avail+1)
-		c, err := apifu.SerializeCursor(j)
+		var cv interface{} = j
+		if name == "timed" {
+			cv = timedCursor(j)
+		}
+		c, err := apifu.SerializeCursor(cv)
 		if err != nil {
 			panic(err)
 		}
@@ -1853,7 +1954,7 @@ func (g *apiGen) item(depth int) []*sel {
 	n := g.r.Range(1, 3)
 	for i := 0; i < n; i++ {
 		if depth > 0 && g.r.Chance(1, 2) {
-			out = append(out, g.conn("Item", rng.Pick(g.r, []string{"kids", "rkids", "both"}), depth))
+			out = append(out, g.conn("Item", rng.Pick(g.r, []string{"kids", "rkids", "both", "timed"}), depth))
 		} else {
 			out = append(out, &sel{kind: kField, scope: "Item", name: rng.Pick(g.r, []string{"id", "w"}), alias: g.alias()})
 		}
@@ -2000,7 +2101,8 @@ func apiCase(r *rng.R, apis []*apiUnderTest, dcs []graphql.FieldCost) sexp.Node 
 		sexp.T("default", sexp.Int(dc.Resolver), sexp.Int(dc.Multiplier)),
 		sexp.T("table", tableSexp()), sexp.T("opname", sexp.Str("Q")), sexp.T("vars", varsSexp(vars)),
 		sexp.T("ops", d.opsSexp()), sexp.T("frags", d.fragsSexp()), sexp.T("max", sexp.Int(-1)),
-		sexp.T("conns", sexp.L(conns...)), sexp.T("observed", observed), sexp.T("query", sexp.Str(q)))
+		sexp.T("conns", sexp.L(conns...)), sexp.T("observed", observed),
+		sexp.T("timed", sexp.Bool(strings.Contains(q, ": timed("))), sexp.T("query", sexp.Str(q)))
 }
 
 // ---------------------------------------------------------------------------------------------
